@@ -273,6 +273,15 @@ def run(chk, replay=None):
         one(case, spoint, idx)
         idx += 1
     if not replay:
+        # directed stream: every component kind certainly present, terminals off ground, both orientations
+        ndirected = 2 if quick else 12
+        for kind in gen_netlist.DIRECTED_KINDS:
+            for j in range(ndirected):
+                case = gen_netlist.directed_case(rng, kind, floating=(j % 2 == 0))
+                spoint = Fraction(rng.randint(1, 12), rng.randint(1, 5)) if case['analysis'] in ('s', 'ivp') else None
+                chk.count('directed', kind)
+                one(case, spoint, idx)
+                idx += 1
         for k in range(ncases):
             case = gen_netlist.random_case(rng, max_nodes=max_nodes)
             spoint = None
